@@ -706,10 +706,39 @@ func c10TouchPropagates(c *Ctx, r *Report) {
 			if nonNeg {
 				return
 			}
+			// the touch is the wrapped context's own GetMatch with the index as it came in: evaluating
+			// something else against the wrapped context (a lazily bound argument, say) need not look anything up
 			touched := false
 			for _, nid := range nodes {
-				if usesParent(fg.Nodes[nid]) {
-					touched = true
+				nd := fg.Nodes[nid]
+				if nd.N == nil {
+					continue
+				}
+				if usesParent(nd) {
+					for _, ce := range callsIn(nd.N) {
+						se, isSel := ce.Fun.(*ast.SelectorExpr)
+						if !isSel || se.Sel.Name != "GetMatch" || len(ce.Args) != 1 || fieldVar(info, se.X) == nil {
+							continue
+						}
+						if idx == nil || identObj(info, ce.Args[0]) == idx {
+							touched = true
+						}
+					}
+				}
+				if touched {
+					break
+				}
+				if idx != nil {
+					if objs, _ := assignedObjs(info, nd.N); len(objs) > 0 {
+						for _, o := range objs {
+							if o == idx {
+								nid = -1
+							}
+						}
+					}
+					if nid == -1 {
+						break // the index was re-bound before any touch: what is forwarded later is not the lookup that was asked
+					}
 				}
 			}
 			if !touched {
